@@ -194,7 +194,8 @@ func (R *Repository) createTempFile() (string, error) {
 }
 
 func (R *Repository) IsRevoked(certificate *x509.Certificate, locations *core.CRLLocations) (*core.RevocationStatus, error) {
-	if locations != nil {
+	//the CDP locations are only needed for the strict check, without strict mode an unusable CDP must not deny
+	if locations != nil && R.crlConfig.CDPConfig.CRLCDPStrict {
 		loader, err := R.crlLoaderFactory.CreatePreferredCrlLoader(locations, R.logger)
 		if err != nil {
 			return nil, err
@@ -204,7 +205,7 @@ func (R *Repository) IsRevoked(certificate *x509.Certificate, locations *core.CR
 			return nil, err
 		}
 		//In strict mode enforce CDP CRL is loaded otherwise abort
-		if R.crlConfig.CDPConfig.CRLCDPStrict && R.isEntryPresentAndLoaded(identifier) == false {
+		if R.isEntryPresentAndLoaded(identifier) == false {
 			return nil, fmt.Errorf("CRL defined in CDP was not loaded")
 		}
 	}
